@@ -292,13 +292,13 @@ Definition data_read (w : N) : prog (dres data_msg) :=
   match rhl with
   | Err e => Ret (Err e)
   | Ok hl =>
-    n2 <- len_ ;;
     rpl <- match ml with
            | Some length =>
              if length <? hl then Ret (Err IncompleteDataMessageHeader) else
              d <- usub length hl ;;
+             n2 <- len_ ;;
              if n2 <? d then Ret (Err IncompleteDataMessagePayload) else Ret (Ok d)
-           | None => Ret (Ok n2)
+           | None => n2 <- len_ ;; Ret (Ok n2)
            end ;;
     match rpl with
     | Err e => Ret (Err e)
